@@ -2,8 +2,8 @@
 
 This is the *regenerated* half of the tie between model and code (DESIGN.md section 11): on every check
 run the functions listed in TARGETS are read from the working tree with `ast`, translated statement by
-statement into `lean/NumbersModel/Gen/Translated.lean` (written only if its text changes), and the
-hand-written equivalence theorems in `Lemmas/Translated.lean` (`<fn>_eq_model`) are re-checked by
+statement into `lean/NumbersModel/Gen/Tr<Group>.lean` (one file per group, written only if its text changes), and the
+hand-written equivalence theorems in `Lemmas/Tr<Group>.lean` (`<fn>_eq_model`) are re-checked by
 `lake build`: each says that the translated definition *is* the hand-written model function the
 property theorems are about.  A change to the Python source changes the generated definition, so the
 equivalence proof — and with it every corollary in `Props/` stated over the translated definitions —
@@ -12,18 +12,29 @@ has to go through again against what the code says now.
 Supported subset (anything else raises `Unsupported`, which leaves the definition out of the generated
 file, so the equivalence theorem no longer compiles and the check reports a broken proof obligation):
 
-  types       int -> Int, bool -> Bool, str -> Text (= List Char), tuples, list[T], Optional[T], and the two
-              structures of Py/Trans.lean (`Item`, `Key`)
-  statements  assignment (also tuple targets, augmented), if/elif/else, while (fuel from the TARGETS entry;
-              `OutOfFuel` is an explicit outcome, "fuel suffices" is a lemma), for over
-              `enumerate(reversed(s))` / `reversed(s)` / `enumerate(s)` / a str or list / `range(n)`
-              (structural recursion, no fuel), return (also from inside a loop), raise, break, continue
-  expressions int / str / bool constants, names, + - * // % ** comparisons (chained), and / or / not on
-              bools, truthiness of int / str / list / Optional in tests, conditional expressions,
-              `int(a / b)` on ints (true division then truncation, see PyT.trueDivTrunc), ord, chr, len,
-              str, int, abs, max, min, f-strings without format specs, indexing and slicing,
-              calls of other translated functions (positional / keyword / default arguments), and the
-              extern calls named in the TARGETS entry (regex matches stay hand-modelled scanners)
+  types       int -> Int, bool -> Bool, str -> Text (= List Char), tuples, list[T], Optional[T], bytes / bytearray -> Bytes,
+              dict[str, V] -> its items in insertion order, the two structures of Py/Trans.lean (`Item`, `Key`),
+              `millis` (a float known to hold a whole number of milliseconds -> PyT.Millis), type variables of the entry
+              (values the code only passes around) and `raw` parameters (third-party functions such as str.isalpha)
+  statements  assignment (also tuple targets, augmented, `buf[i] = x` / `buf[i] op= x` on a bytearray, `d[k] = v` on a dict the
+              entry carries as a state variable), if/elif/else, `if x is None: x = e`, while (fuel from the TARGETS entry;
+              `OutOfFuel` is an explicit outcome, "fuel suffices" is a lemma), for over `enumerate(reversed(s))` /
+              `reversed(s)` / `enumerate(s)` / a str or list / `range(n)` / `range(a, b[, c])` (structural recursion, no
+              fuel), return (also from inside a loop; with `state` variables of the entry returned beside the value),
+              raise, break, continue
+  expressions int / str / bool / None constants, names, module constants whose live value is an int (`module_consts`),
+              + - * // % ** & | << >> comparisons (chained), `x is [not] None`, `k in d`, and / or / not on bools (also
+              `x is not None and P(x)` with x narrowed), truthiness of int / str / list / Optional / millis in tests,
+              conditional expressions (also with a `None` branch or branches that can raise), `int(a / b)` and
+              `int(ceil(a / 7.0))` on ints (PyT.trueDivTrunc, PyT.ceilDivFloat), ord, chr, len, str, int, abs, max, min,
+              bytearray(n), math.floor on millis, `[*s]`, list comprehensions (an element that can raise: mapM),
+              f-strings without format specs, indexing and slicing (tuples: literal index), calls of other translated
+              functions (positional / keyword / default arguments), methods named in the entry (`methods`), and the
+              extern calls named in the TARGETS entry (regex matches stay hand-modelled scanners; an extern may drop
+              arguments, take keyword arguments and `*args`)
+  entries     `until` (translate the prefix before a statement and return named variables), `body_of` (translate the body of
+              one loop statement), `skip` (statements whose effect is supplied as parameters), `attrs` (attribute / item
+              chains that are parameters), `state` (what the method leaves in `self`, returned beside the value)
 
 Every construct is translated to the operation of Py/Trans.lean / Py/Basic.lean that states its Python
 meaning; everything that can raise lives in `PyM = Except PyExc`.
@@ -62,6 +73,16 @@ def lean_type(t) -> str:
         return "PyT.Item"
     if t == "key":
         return "PyT.Key"
+    if t == "bytes":
+        return "Bytes"
+    if isinstance(t, tuple) and t[0] == "var":  # a type variable of the entry (values the code only passes around)
+        return t[1]
+    if isinstance(t, tuple) and t[0] == "dict":  # dict[str, V] in insertion order
+        return f"(List (Text × {lean_type(t[2])}))"
+    if t == "millis":  # a float known to hold a whole number of milliseconds, carried as that number (PyT.Millis)
+        return "PyT.Millis"
+    if isinstance(t, tuple) and t[0] == "raw":  # a parameter that stands for a third-party function (calendar, str.isalpha, …)
+        return f"({t[1]})"
     if isinstance(t, tuple) and t[0] == "tuple":
         return "(" + " × ".join(lean_type(x) for x in t[1]) + ")"
     if isinstance(t, tuple) and t[0] == "match":  # groups of a successful regex match
@@ -76,7 +97,7 @@ def lean_type(t) -> str:
 KEYWORDS = {"match", "at", "from", "open", "end", "in", "fun", "do", "then", "else", "if", "let", "have", "show",
             "with", "where", "def", "theorem", "instance", "structure", "class", "namespace", "section", "return",
             "for", "import", "mutual", "universe", "variable", "local", "prefix", "infix", "notation", "macro",
-            "syntax", "deriving", "extends", "Type", "Prop", "Sort", "sorry", "by", "calc", "try", "catch", "finally"}
+            "syntax", "deriving", "extends", "abbrev", "example", "inductive", "private", "protected", "partial", "opaque", "axiom", "lemma", "set_option", "attribute", "export", "using", "unless", "nomatch", "nofun", "Type", "Prop", "Sort", "sorry", "by", "calc", "try", "catch", "finally"}
 
 
 def lname(n: str) -> str:
@@ -99,7 +120,7 @@ def text_lit(s: str) -> str:
 
 
 EXC = {"IndexError": ".IndexError", "KeyError": ".KeyError", "ValueError": ".ValueError", "TypeError": ".TypeError",
-       "RuntimeError": ".RuntimeError", "AttributeError": ".AttributeError"}
+       "RuntimeError": ".RuntimeError", "AttributeError": ".AttributeError", "TokenizerError": ".TokenizerError"}
 
 
 def exc_code(node) -> str:
@@ -132,9 +153,31 @@ class Fn:
         self.tmp += 1
         return f"t{self.tmp}"
 
+    def module_const(self, e):
+        """`NAME` / `Enum.MEMBER` of the module the function lives in whose live value is an int (IntEnum members
+        included, bools not): read from the imported module on every run, emitted as the literal."""
+        if not self.spec.get("module_consts"):
+            return None
+        import importlib
+        g = vars(importlib.import_module(self.spec["module"]))
+        try:
+            if isinstance(e, ast.Name):
+                v = g[e.id]
+            elif isinstance(e, ast.Attribute) and isinstance(e.value, ast.Name):
+                v = getattr(g[e.value.id], e.attr)
+            else:
+                return None
+        except (KeyError, AttributeError):
+            return None
+        if isinstance(v, bool) or not isinstance(v, int):
+            return None
+        return f"({int(v)} : Int)", "int"
+
     # -- expressions ----------------------------------------------------------------------
     def expr(self, e, env, pre: list[str]):
         """returns (lean code, type); monadic sub-computations are hoisted into `pre` as `let x ← …`."""
+        if isinstance(e, ast.Subscript) and ast.unparse(e) in self.spec.get("attrs", {}):
+            return self.spec["attrs"][ast.unparse(e)]
         if isinstance(e, ast.Constant):
             v = e.value
             if isinstance(v, bool):
@@ -152,12 +195,18 @@ class Fn:
             consts = self.spec.get("consts", {})
             if e.id in consts:
                 return consts[e.id]
+            mc = self.module_const(e)
+            if mc is not None:
+                return mc
             raise Unsupported(f"free name {e.id}")
         if isinstance(e, ast.Attribute):
             attrs = self.spec.get("attrs", {})
             src = ast.unparse(e)
             if src in attrs:
                 return attrs[src]
+            mc = self.module_const(e)
+            if mc is not None:
+                return mc
             base, bt = self.expr(e.value, env, pre)
             if bt == "item" and e.attr == "name":
                 return f"{base}.name", "str"
@@ -174,6 +223,21 @@ class Fn:
                     raise Unsupported("unary minus on non-int")
                 return f"(-{c})", "int"
             raise Unsupported("unary op")
+        if isinstance(e, ast.BoolOp) and isinstance(e.op, ast.And) and isinstance(e.values[0], ast.Compare) \
+                and len(e.values[0].ops) == 1 and isinstance(e.values[0].ops[0], ast.IsNot) \
+                and isinstance(e.values[0].left, ast.Name) and isinstance(e.values[0].comparators[0], ast.Constant) \
+                and e.values[0].comparators[0].value is None \
+                and isinstance(env.get(e.values[0].left.id), tuple) and env[e.values[0].left.id][0] == "opt":
+            # `x is not None and P(x)`: P is evaluated only when x is not None, with x narrowed
+            var = e.values[0].left.id
+            env2 = dict(env)
+            env2[var] = env[var][1]
+            rest = e.values[1] if len(e.values) == 2 else ast.BoolOp(op=ast.And(), values=e.values[1:])
+            sub: list[str] = []
+            code = self.truthy_bool_only(rest, env2, sub)
+            if sub:
+                raise Unsupported("short-circuit operand that can raise")
+            return f"(match {lname(var)} with | none => false | some {lname(var)} => {code})", "bool"
         if isinstance(e, ast.BoolOp):
             parts = []
             for i, v in enumerate(e.values):
@@ -216,10 +280,22 @@ class Fn:
             c = self.truthy(e.test, env, pre)
             a, at = self.expr(e.body, env, sub1)
             b, bt = self.expr(e.orelse, env, sub2)
-            if sub1 or sub2:
-                raise Unsupported("conditional expression with a branch that can raise")
+            # `x if c else None` / `None if c else x`: an Optional
+            if at == "none" and bt != "none":
+                a, at, b, bt = f"(none : Option {lean_type(bt)})", ("opt", bt), f"(some {b})", ("opt", bt)
+            elif bt == "none" and at != "none":
+                a, at, b, bt = f"(some {a})", ("opt", at), f"(none : Option {lean_type(at)})", ("opt", at)
             if at != bt:
                 raise Unsupported(f"conditional expression of two types {at} / {bt}")
+            if sub1 or sub2:
+                # only the chosen branch is evaluated: a monadic conditional
+                v = self.fresh()
+                pre.append(f"let {v} : {lean_type(at)} ← (if {c} then (do")
+                pre.extend(self.ind(self.ind(sub1 + [f"pure {a}"])))
+                pre.append("  ) else (do")
+                pre.extend(self.ind(self.ind(sub2 + [f"pure {b}"])))
+                pre.append("  ))")
+                return v, at
             return f"(if {c} then {a} else {b})", at
         if isinstance(e, ast.BinOp):
             return self.binop(e, env, pre)
@@ -234,6 +310,17 @@ class Fn:
                 else:
                     raise Unsupported("f-string with format spec")
             return "(" + " ++ ".join(parts or ["([] : Text)"]) + ")", "str"
+        if isinstance(e, ast.List) and e.elts and not any(isinstance(x, ast.Starred) for x in e.elts):
+            parts = [self.expr(x, env, pre) for x in e.elts]
+            if any(p[1] != parts[0][1] for p in parts):
+                raise Unsupported("list display of mixed types")
+            return "[" + ", ".join(p[0] for p in parts) + "]", ("list", parts[0][1])
+        if isinstance(e, ast.List) and len(e.elts) == 1 and isinstance(e.elts[0], ast.Starred):
+            # [*s]: the list of the one-character strings of s
+            c, t = self.expr(e.elts[0].value, env, pre)
+            if t != "str":
+                raise Unsupported("[*x] of " + str(t))
+            return f"(PyT.strIter {c})", ("list", "str")
         if isinstance(e, ast.Subscript) and isinstance(e.value, ast.Call) and isinstance(e.value.func, ast.Name) \
                 and e.value.func.id in ("bin", "oct", "hex") and isinstance(e.slice, ast.Slice) and e.slice.upper is None \
                 and isinstance(e.slice.lower, ast.Constant) and e.slice.lower.value == 2 and e.slice.step is None:
@@ -248,7 +335,14 @@ class Fn:
                 and isinstance(e.generators[0].target, ast.Name):
             g = e.generators[0]
             sub: list[str] = []
-            it, itt = self.expr(g.iter, env, pre)
+            if isinstance(g.iter, ast.Call) and isinstance(g.iter.func, ast.Name) and g.iter.func.id == "range" \
+                    and len(g.iter.args) == 1:
+                rc, rt = self.expr(g.iter.args[0], env, pre)
+                if rt != "int":
+                    raise Unsupported("range() of non-int")
+                it, itt = f"(PyT.range {rc})", ("list", "int")
+            else:
+                it, itt = self.expr(g.iter, env, pre)
             if itt == "str":
                 lst, et = f"(PyT.strIter {it})", "str"
             elif isinstance(itt, tuple) and itt[0] == "list":
@@ -259,7 +353,12 @@ class Fn:
             env2[g.target.id] = et
             body, bt2 = self.expr(e.elt, env2, sub)
             if sub:
-                raise Unsupported("comprehension element that can raise")
+                # an element that can raise: the list is built left to right and the first exception ends it
+                v = self.fresh()
+                pre.append(f"let {v} ← ({lst}).mapM (fun ({lname(g.target.id)} : {lean_type(et)}) => (do")
+                pre.extend(self.ind(self.ind(sub + [f"pure {body}"])))
+                pre.append(f"  : PyM {lean_type(bt2)}))")
+                return v, ("list", bt2)
             return f"(({lst}).map (fun ({lname(g.target.id)} : {lean_type(et)}) => {body}))", ("list", bt2)
         if isinstance(e, ast.Subscript):
             base, bt = self.expr(e.value, env, pre)
@@ -269,6 +368,20 @@ class Fn:
                 lo = "none" if e.slice.lower is None else f"(some {self.expr(e.slice.lower, env, pre)[0]})"
                 hi = "none" if e.slice.upper is None else f"(some {self.expr(e.slice.upper, env, pre)[0]})"
                 return f"(pySlice {base} {lo} {hi})", bt
+            if isinstance(bt, tuple) and bt[0] == "dict":
+                k, kt = self.expr(e.slice, env, pre)
+                if kt != "str":
+                    raise Unsupported("dict key of type " + str(kt))
+                v = self.fresh()
+                pre.append(f"let {v} ← PyT.dictGet {base} {k}")
+                return v, bt[2]
+            if isinstance(bt, tuple) and bt[0] == "tuple":
+                # t[k] on a fixed-length tuple with a literal index: the projection
+                if not (isinstance(e.slice, ast.Constant) and isinstance(e.slice.value, int) and not isinstance(e.slice.value, bool)
+                        and 0 <= e.slice.value < len(bt[1])):
+                    raise Unsupported("tuple index that is not a literal in range")
+                k, n = e.slice.value, len(bt[1])
+                return "(" + base + ".2" * k + (".1" if k < n - 1 else "") + ")", bt[1][k]
             idx, it = self.expr(e.slice, env, pre)
             if it != "int":
                 raise Unsupported("non-int index")
@@ -280,6 +393,10 @@ class Fn:
                 v = self.fresh()
                 pre.append(f"let {v} ← pyIndex (PyT.strIter {base}) {idx}")
                 return v, "str"
+            if bt == "bytes":
+                v = self.fresh()
+                pre.append(f"let {v} ← PyT.byteAt {base} {idx}")
+                return v, "int"
             raise Unsupported("subscript of " + str(bt))
         if isinstance(e, ast.Call):
             return self.call(e, env, pre)
@@ -293,8 +410,24 @@ class Fn:
         raise Unsupported(f"str() of {t}")
 
     def compare(self, op, a, at, b, bt) -> str:
+        if isinstance(op, (ast.In, ast.NotIn)) and isinstance(bt, tuple) and bt[0] == "dict" and at == "str":
+            c = f"(PyT.dictContains {b} {a})"
+            return c if isinstance(op, ast.In) else f"(!{c})"
+        if isinstance(op, (ast.Is, ast.IsNot)):
+            if bt == "none" and isinstance(at, tuple) and at[0] == "opt":
+                return f"({a}).isNone" if isinstance(op, ast.Is) else f"({a}).isSome"
+            raise Unsupported("`is` other than `<Optional> is [not] None`")
+        if at == "millis" and bt == "int":
+            b, bt = f"(PyT.Millis.ofInt {b})", "millis"
+        elif at == "int" and bt == "millis":
+            a, at = f"(PyT.Millis.ofInt {a})", "millis"
         if at != bt:
             raise Unsupported(f"comparison of {at} with {bt}")
+        if at == "millis" and not isinstance(op, (ast.Eq, ast.NotEq)):
+            sym = {ast.Lt: "<", ast.LtE: "≤", ast.Gt: ">", ast.GtE: "≥"}.get(type(op))
+            if sym is None:
+                raise Unsupported("comparison operator")
+            return f"(decide ({a}.ms {sym} {b}.ms))"
         if isinstance(op, ast.Eq):
             return f"(decide ({a} = {b}))"
         if isinstance(op, ast.NotEq):
@@ -321,6 +454,8 @@ class Fn:
             return c
         if t == "int":
             return f"(decide ({c} ≠ 0))"
+        if t == "millis":
+            return f"(decide ({c}.ms ≠ 0))"
         if t == "str" or (isinstance(t, tuple) and t[0] == "list"):
             return f"(!({c}).isEmpty)"
         if isinstance(t, tuple) and t[0] == "opt":
@@ -333,12 +468,21 @@ class Fn:
         op = type(e.op)
         if at == "str" and bt == "str" and op is ast.Add:
             return f"({a} ++ {b})", "str"
+        if isinstance(at, tuple) and at[0] == "list" and at == bt and op is ast.Add:
+            return f"({a} ++ {b})", at
+        if at == "millis" and bt == "int" and op is ast.Mod:
+            v = self.fresh()
+            pre.append(f"let {v} ← PyT.Millis.mod {a} {b}")
+            return v, "millis"
         if at != "int" or bt != "int":
             raise Unsupported(f"binary {op.__name__} on {at}, {bt}")
         if op in (ast.Add, ast.Sub, ast.Mult):
             return f"({a} {'+' if op is ast.Add else '-' if op is ast.Sub else '*'} {b})", "int"
-        if op in (ast.FloorDiv, ast.Mod, ast.Pow):
-            fn = {ast.FloorDiv: "PyT.floordiv", ast.Mod: "PyT.mod", ast.Pow: "PyT.pow"}[op]
+        if op in (ast.BitAnd, ast.BitOr):
+            return f"(PyT.{'bitAnd' if op is ast.BitAnd else 'bitOr'} {a} {b})", "int"
+        if op in (ast.FloorDiv, ast.Mod, ast.Pow, ast.LShift, ast.RShift):
+            fn = {ast.FloorDiv: "PyT.floordiv", ast.Mod: "PyT.mod", ast.Pow: "PyT.pow",
+                  ast.LShift: "PyT.shl", ast.RShift: "PyT.shr"}[op]
             v = self.fresh()
             pre.append(f"let {v} ← {fn} {a} {b}")
             return v, "int"
@@ -349,8 +493,13 @@ class Fn:
         src = ast.unparse(f)
         externs = self.spec.get("externs", {})
         if src in externs:
-            lean_fn, argtypes, rett, monadic = externs[src]
-            args = [self.expr(a, env, pre)[0] for a in e.args]
+            lean_fn, argtypes, rett, monadic, *keep = externs[src]
+            # optional 5th component: the positions of the Python arguments that are passed on (an argument that only
+            # stands for "the value the third-party function is about", e.g. the datetime, is dropped)
+            # `*xs` passes the list xs; `**kwargs` of a wrapper is taken to be empty (named in the entry's `assume`)
+            actual = [a.value if isinstance(a, ast.Starred) else a for a in e.args] + \
+                [k.value for k in e.keywords if k.arg is not None]
+            args = [self.expr(a, env, pre)[0] for i, a in enumerate(actual) if not keep or i in keep[0]]
             code = f"({lean_fn} " + " ".join(args) + ")" if args else lean_fn
             if monadic:
                 v = self.fresh()
@@ -362,8 +511,17 @@ class Fn:
             if t != ("list", "str"):
                 raise Unsupported("join over " + str(t))
             return (f"(PyT.joinEmpty {c})" if f.value.value == "" else f"(PyT.join {text_lit(f.value.value)} {c})"), "str"
+        if src == "math.floor" and len(e.args) == 1:
+            c, t = self.expr(e.args[0], env, pre)
+            if t != "millis":
+                raise Unsupported("math.floor of " + str(t))
+            return f"(PyT.Millis.floor {c})", "millis"
         if isinstance(f, ast.Attribute):
             base, bt = self.expr(f.value, env, pre)
+            methods = self.spec.get("methods", {})
+            if (bt, f.attr) in methods and not e.args:
+                lean_fn, rett = methods[(bt, f.attr)]
+                return f"({lean_fn} {base})", rett
             if bt == "int" and f.attr == "bit_length" and not e.args:
                 return f"(PyT.bitLength {base})", "int"
             if bt == "str" and f.attr == "rjust" and len(e.args) == 2 and isinstance(e.args[1], ast.Constant) \
@@ -394,6 +552,17 @@ class Fn:
             return f"(PyT.{fn}I {a} {b})", "int"
         if fn == "int" and len(e.args) == 1:
             a = e.args[0]
+            if isinstance(a, ast.Call) and ast.unparse(a.func) in ("ceil", "math.ceil") and len(a.args) == 1 \
+                    and isinstance(a.args[0], ast.BinOp) and isinstance(a.args[0].op, ast.Div) \
+                    and isinstance(a.args[0].right, ast.Constant) and isinstance(a.args[0].right.value, float) \
+                    and a.args[0].right.value == int(a.args[0].right.value):
+                # int(ceil(x / 7.0)) on an int x: ceiling of the true quotient (PyT.ceilDivFloat)
+                x, xt = self.expr(a.args[0].left, env, pre)
+                if xt != "int":
+                    raise Unsupported("int(ceil(a / c)) on non-int")
+                v = self.fresh()
+                pre.append(f"let {v} ← PyT.ceilDivFloat {x} ({int(a.args[0].right.value)} : Int)")
+                return v, "int"
             if isinstance(a, ast.BinOp) and isinstance(a.op, ast.Div):
                 x, xt = self.expr(a.left, env, pre)
                 y, yt = self.expr(a.right, env, pre)
@@ -413,6 +582,13 @@ class Fn:
         if fn == "str" and len(e.args) == 1:
             c, t = self.expr(e.args[0], env, pre)
             return self.to_str(c, t), "str"
+        if fn == "bytearray" and len(e.args) == 1:
+            c, t = self.expr(e.args[0], env, pre)
+            if t != "int":
+                raise Unsupported("bytearray() of " + str(t))
+            v = self.fresh()
+            pre.append(f"let {v} ← PyT.bytearrayZeros {c}")
+            return v, "bytes"
         if fn == "ord" and len(e.args) == 1:
             a = e.args[0]
             if isinstance(a, ast.Constant) and isinstance(a.value, str) and len(a.value) == 1:
@@ -470,9 +646,9 @@ class Fn:
             return Fn.terminal(s.body) and Fn.terminal(s.orelse)
         return False
 
-    @staticmethod
-    def assigned(stmts) -> list[str]:
+    def assigned(self, stmts) -> list[str]:
         out: list[str] = []
+        attrs = self.spec.get("attrs", {})
 
         def tgt(t):
             if isinstance(t, ast.Name):
@@ -481,6 +657,12 @@ class Fn:
             elif isinstance(t, ast.Tuple):
                 for x in t.elts:
                     tgt(x)
+            elif isinstance(t, ast.Subscript) and isinstance(t.value, ast.Name):
+                tgt(t.value)      # buf[i] = x updates buf
+            elif isinstance(t, ast.Subscript) and ast.unparse(t.value) in attrs:
+                name = attrs[ast.unparse(t.value)][0]      # d[k] = v on a dict carried as a state variable updates it
+                if name not in out:
+                    out.append(name)
         for s in stmts:
             for n in ast.walk(s):
                 if isinstance(n, ast.Assign):
@@ -506,7 +688,8 @@ class Fn:
             if k is None:
                 if self.ret != "none":
                     raise Unsupported("control reaches the end of a function that returns a value")
-                return ["pure ()"]
+                state = self.spec.get("state", ())
+                return ["pure (" + ", ".join(["()"] + [lname(v) for v in state]) + ")"] if state else ["pure ()"]
             return k(env)
         s, rest = stmts[0], stmts[1:]
 
@@ -517,6 +700,10 @@ class Fn:
             return cont(env)  # docstring
         if isinstance(s, ast.Pass):
             return cont(env)
+        if ast.unparse(s).strip() in self.spec.get("skip", ()):
+            # a statement whose effect is supplied by the harness as parameters of the translated definition
+            # (third-party / object-graph step named in the entry's `assume`)
+            return cont(env)
         if isinstance(s, ast.Assign) and len(s.targets) == 1 and isinstance(s.targets[0], ast.Name) \
                 and s.targets[0].id in getattr(self, "msg_only", ()):
             return cont(env)  # exception message text: not modelled
@@ -526,11 +713,37 @@ class Fn:
                 if len(s.targets) != 1:
                     raise Unsupported("chained assignment")
                 target = s.targets[0]
-                code, t = self.expr(s.value, env, pre)
+                if isinstance(s.value, ast.List) and not s.value.elts and isinstance(target, ast.Name) \
+                        and isinstance(env.get(target.id), tuple) and env[target.id][0] == "list":
+                    t = env[target.id]       # `x = []` for a list variable that already has an element type
+                    code = f"([] : {lean_type(t)})"
+                else:
+                    code, t = self.expr(s.value, env, pre)
             else:
                 target = s.target
                 code, t = self.binop(ast.BinOp(left=s.target, op=s.op, right=s.value), env, pre)
             env2 = dict(env)
+            if isinstance(target, ast.Subscript) and ast.unparse(target.value) in self.spec.get("attrs", {}) \
+                    and isinstance(self.spec["attrs"][ast.unparse(target.value)][1], tuple) \
+                    and self.spec["attrs"][ast.unparse(target.value)][1][0] == "dict" and isinstance(s, ast.Assign):
+                # d[k] = v on a dict the entry carries as a state variable
+                dvar, dt = self.spec["attrs"][ast.unparse(target.value)]
+                if dvar not in self.spec.get("state", ()):
+                    raise Unsupported("assignment into a dict that is not a state variable of the entry")
+                kc, kt = self.expr(target.slice, env, pre)
+                if kt != "str" or t != dt[2]:
+                    raise Unsupported("dict item of the wrong type")
+                return pre + [f"let {dvar} : {lean_type(dt)} := PyT.dictSet {dvar} {kc} {code}"] + cont(env2)
+            if isinstance(target, ast.Subscript) and isinstance(target.value, ast.Name) and env.get(target.value.id) == "bytes" \
+                    and not isinstance(target.slice, ast.Slice):
+                # buf[i] = x / buf[i] op= x on a bytearray: the updated buffer (IndexError / ValueError as bytearray raises them)
+                if t != "int":
+                    raise Unsupported("bytearray item of type " + str(t))
+                idx, it = self.expr(target.slice, env, pre)
+                if it != "int":
+                    raise Unsupported("non-int index")
+                b = lname(target.value.id)
+                return pre + [f"let {b} ← PyT.setByte {b} {idx} {code}"] + cont(env2)
             if isinstance(target, ast.Name):
                 env2[target.id] = t
                 return pre + [f"let {lname(target.id)} : {lean_type(t)} := {code}"] + cont(env2)
@@ -547,6 +760,10 @@ class Fn:
                 code, t = "()", "none"
             else:
                 code, t = self.expr(s.value, env, pre)
+            state = self.spec.get("state", ())
+            if state:
+                # the entry's state variables (what the method leaves in `self`) are returned beside the value
+                code = "(" + ", ".join([code] + [lname(v) for v in state]) + ")"
             if loop is not None:
                 return pre + [loop["on_return"](code, env)]
             return pre + [f"pure {code}"]
@@ -594,6 +811,21 @@ class Fn:
             env2[var] = env[var][1]
             return [f"match {lname(var)} with", "| none =>"] + self.ind(self.block(s.body, env, None, loop)) + \
                    [f"| some {lname(var)} =>"] + self.ind(cont(env2))
+        # Optional defaulting:  if x is None: x = e   →  let x ← match x with | none => e | some x => x
+        if isinstance(t, ast.Compare) and len(t.ops) == 1 and isinstance(t.ops[0], ast.Is) and isinstance(t.left, ast.Name) \
+                and isinstance(t.comparators[0], ast.Constant) and t.comparators[0].value is None \
+                and isinstance(env.get(t.left.id), tuple) and env[t.left.id][0] == "opt" and not s.orelse \
+                and len(s.body) == 1 and isinstance(s.body[0], ast.Assign) and len(s.body[0].targets) == 1 \
+                and isinstance(s.body[0].targets[0], ast.Name) and s.body[0].targets[0].id == t.left.id:
+            var = t.left.id
+            sub: list[str] = []
+            code, vt = self.expr(s.body[0].value, env, sub)
+            if vt != env[var][1]:
+                raise Unsupported(f"default of type {vt} for an Optional[{env[var][1]}]")
+            env2 = dict(env)
+            env2[var] = vt
+            return [f"let {lname(var)} : {lean_type(vt)} ← (match {lname(var)} with", "  | none => (do"] + \
+                self.ind(self.ind(sub + [f"pure {code}"])) + [f"    )", f"  | some {lname(var)} => pure {lname(var)})"] + cont(env2)
         pre: list[str] = []
         c = self.truthy(s.test, env, pre)
         then_term, else_term = self.terminal(s.body), self.terminal(s.orelse)
@@ -638,7 +870,10 @@ class Fn:
     def loop_common(self, body_nodes, env, extra_bound=()):
         carried = [v for v in self.assigned(body_nodes) if v in env and v not in extra_bound]
         used = self.loads(body_nodes)
-        fixed = [v for v in env if v in used and v not in carried and v not in extra_bound]
+        # parameters that stand for third-party functions are named by the externs / methods of the entry, not by the
+        # Python text: they are always passed on
+        fixed = [v for v in env if (v in used or (isinstance(env[v], tuple) and env[v][0] == "raw"))
+                 and v not in carried and v not in extra_bound]
         return carried, fixed
 
     def loop_result(self, carried, env, has_ret):
@@ -709,6 +944,14 @@ class Fn:
                 if node.func.id == "range" and len(node.args) == 1:
                     c, t = self.expr(node.args[0], env, pre)
                     return f"(PyT.range {c})", "int"
+                if node.func.id == "range" and len(node.args) in (2, 3):
+                    parts = [self.expr(a, env, pre) for a in node.args]
+                    if any(t != "int" for _, t in parts):
+                        raise Unsupported("range() of non-ints")
+                    step = parts[2][0] if len(parts) == 3 else "(1 : Int)"
+                    v = self.fresh()
+                    pre.append(f"let {v} ← PyT.range3 {parts[0][0]} {parts[1][0]} {step}")
+                    return v, "int"
             c, t = self.expr(node, env, pre)
             if t == "str":
                 return f"(PyT.strIter {c})", "str"
@@ -753,13 +996,14 @@ class Fn:
         return pre + self.after_loop(call, carried, env, has_ret, cont, loop)
 
     # -- whole function -----------------------------------------------------------------------
-    @staticmethod
-    def message_only(fdef) -> set[str]:
+    def message_only(self, fdef) -> set[str]:
         """names whose every use is inside the argument of a `raise` (or inside the value assigned to another such
         name): exception message texts, which the model does not carry"""
-        cand = set(Fn.assigned(fdef.body))
+        cand = set(self.assigned(fdef.body))
         params = {a.arg for a in fdef.args.args}
         cand -= params
+        # parameters and state variables of the entry are results, never message texts
+        cand -= {p[0] for p in self.spec["params"]} | set(self.spec.get("state", ()))
         changed = True
         while changed:
             changed = False
@@ -783,15 +1027,63 @@ class Fn:
                     changed = True
         return cand
 
+    def desugar_state(self, fdef):
+        """`state_attrs` of the entry: attribute chains of `self` that are state variables of the translated definition.
+        `X.append(v)` is `x = x + [v]`, `del X[:]` is `x = []`, `X op= v` is `x op= v`, a read of `X` is `x`."""
+        sa = self.spec.get("state_attrs")
+        if not sa:
+            return fdef
+
+        class T(ast.NodeTransformer):
+            def visit_Expr(self, node):
+                c = node.value
+                if isinstance(c, ast.Call) and isinstance(c.func, ast.Attribute) and c.func.attr == "append" \
+                        and ast.unparse(c.func.value) in sa and len(c.args) == 1 and not c.keywords:
+                    n = sa[ast.unparse(c.func.value)]
+                    return ast.Assign(targets=[ast.Name(id=n, ctx=ast.Store())],
+                                      value=ast.BinOp(left=ast.Name(id=n, ctx=ast.Load()), op=ast.Add(),
+                                                      right=ast.List(elts=[self.visit(c.args[0])], ctx=ast.Load())))
+                return self.generic_visit(node)
+
+            def visit_Delete(self, node):
+                if len(node.targets) == 1 and isinstance(node.targets[0], ast.Subscript) \
+                        and ast.unparse(node.targets[0].value) in sa and isinstance(node.targets[0].slice, ast.Slice) \
+                        and node.targets[0].slice.lower is None and node.targets[0].slice.upper is None \
+                        and node.targets[0].slice.step is None:
+                    n = sa[ast.unparse(node.targets[0].value)]
+                    return ast.Assign(targets=[ast.Name(id=n, ctx=ast.Store())], value=ast.List(elts=[], ctx=ast.Load()))
+                return self.generic_visit(node)
+
+            def visit_Attribute(self, node):
+                if ast.unparse(node) in sa:
+                    return ast.Name(id=sa[ast.unparse(node)], ctx=node.ctx)
+                return self.generic_visit(node)
+        out = T().visit(fdef)
+        ast.fix_missing_locations(out)
+        return out
+
     def translate(self, fdef: ast.FunctionDef) -> str:
+        fdef = self.desugar_state(fdef)
         self.msg_only = self.message_only(fdef)
+        body_of = self.spec.get("body_of")
+        if body_of:
+            # translate the body of the one loop statement whose header line is `body_of` (its loop variable and whatever
+            # else the body reads are parameters of the entry)
+            loops = [n for n in ast.walk(fdef) if isinstance(n, (ast.For, ast.While))
+                     and ast.unparse(n).split("\n")[0].strip() == body_of]
+            if len(loops) != 1:
+                raise Unsupported(f"loop {body_of!r} not found exactly once")
+            fdef = ast.FunctionDef(name=fdef.name, args=fdef.args, body=list(loops[0].body), decorator_list=[],
+                                   returns=None, type_comment=None, lineno=fdef.lineno, col_offset=0)
+            ast.fix_missing_locations(fdef)
         until = self.spec.get("until")
         if until:
             # translate only the prefix of the body before the statement `until[0]`, then return the tuple `until[1]`
-            cut = [i for i, st in enumerate(fdef.body) if ast.unparse(st).strip() == until[0]]
+            cut = [i for i, st in enumerate(fdef.body) if ast.unparse(st).strip() == until[0]
+                   or ast.unparse(st).split("\n")[0].strip() == until[0]]
             if len(cut) != 1:
                 raise Unsupported(f"statement {until[0]!r} that ends the translated prefix not found exactly once")
-            ret = ast.parse("return (" + ", ".join(until[1]) + ")").body[0]
+            ret = ast.parse("return (" + ", ".join(until[1]) + ")" if until[1] else "return").body[0]
             fdef = ast.FunctionDef(name=fdef.name, args=fdef.args, body=fdef.body[:cut[0]] + [ret], decorator_list=[],
                                    returns=None, type_comment=None, lineno=fdef.lineno, col_offset=0)
             ast.fix_missing_locations(fdef)
@@ -801,7 +1093,10 @@ class Fn:
             env[n] = t
             params.append(f"({lname(n)} : {lean_type(t)})")
         body = self.block(fdef.body, env, None)
-        head = f"def {self.name} " + " ".join(params) + f" : PyM {lean_type(self.ret)} := do"
+        state = self.spec.get("state", ())
+        rty = lean_type(("tuple", [self.ret] + [env[v] for v in state])) if state else lean_type(self.ret)
+        tv = "".join("{" + v + " : Type} " for v in self.spec.get("typevars", ()))
+        head = f"def {self.name} " + tv + " ".join(params) + f" : PyM {rty} := do"
         return "\n\n".join(self.aux + [head + "\n" + "\n".join(self.ind(body))])
 
 
@@ -830,6 +1125,19 @@ TARGETS = [
      "params": [("col_str", "str")], "ret": "int",
      "externs": {"col_parts.match": ("A1.colPartsMatch", ["str"], ("opt", ("match", 2)), False)},
      "assume": "col_parts.match is the hand-derived scanner A1.colPartsMatch"},
+    {"group": "A1", "module": "numbers_parser.tokenizer", "qualname": "parse_numbers_range.col_to_index", "lean": "col_to_index",
+     "params": [("col_str", "str")], "ret": "int"},
+    # ---- C18: the two token-buffer methods of the Tokenizer, the instance attributes threaded as state -----------------
+    {"group": "Tok", "module": "numbers_parser.tokenizer", "qualname": "Tokenizer.assert_empty_token", "lean": "assert_empty_token",
+     "params": [("token", ("list", "str"))], "ret": "none",
+     "state_attrs": {"self.token": "token"},
+     "assume": "self.token (the list of pieces of the token being read) is the parameter token"},
+    {"group": "Tok", "module": "numbers_parser.tokenizer", "qualname": "Tokenizer.save_token", "lean": "save_token",
+     "params": [("items", ("list", ("raw", "Tokenizer.Tok"))), ("token", ("list", "str"))], "ret": "none",
+     "state": ["items", "token"], "state_attrs": {"self.items": "items", "self.token": "token"},
+     "externs": {"Token.make_operand": ("Tokenizer.makeOperand", ["str"], ("raw", "Tokenizer.Tok"), False)},
+     "assume": "self.items / self.token are state variables returned beside the value; Token.make_operand is the model's "
+               "makeOperand (NUMBER / RANGE merged; its float() test stays hand-modelled)"},
     {"group": "Items", "module": "numbers_parser.containers", "qualname": "ItemsList.__getitem__", "lean": "ItemsList.getitem",
      "params": [("items", ("list", "item")), ("key", "key")], "ret": "item",
      "attrs": {"self._items": ("items", ("list", "item")), "self._item_name": ("([] : Text)", "str")},
@@ -850,6 +1158,39 @@ TARGETS = [
      "attrs": {"self.num_rows": ("num_rows", "int"), "self.num_cols": ("num_cols", "int")},
      "until": ("rows = self.rows()", ["min_row", "max_row", "min_col", "max_col"]),
      "assume": "only the defaulting and bounds-checking prefix is translated"},
+    {"group": "Edit", "module": "numbers_parser.document", "qualname": "Table.add_row", "lean": "add_row_args",
+     "params": [("table_rows", "int"), ("num_rows", "int"), ("start_row", ("opt", "int"))], "ret": "int",
+     "attrs": {"self.num_rows": ("table_rows", "int")},
+     "until": ("self.num_rows += num_rows", ["start_row"]),
+     "assume": "only the argument checks and the defaulting of start_row (everything before `self.num_rows += num_rows`) are "
+               "translated; self.num_rows is the parameter table_rows"},
+    {"group": "Edit", "module": "numbers_parser.document", "qualname": "Table.add_column", "lean": "add_column_args",
+     "params": [("table_cols", "int"), ("num_cols", "int"), ("start_col", ("opt", "int"))], "ret": "int",
+     "attrs": {"self.num_cols": ("table_cols", "int")},
+     "until": ("self.num_cols += num_cols", ["start_col"]),
+     "assume": "only the argument checks and the defaulting of start_col are translated"},
+    {"group": "Edit", "module": "numbers_parser.document", "qualname": "Table.delete_row", "lean": "delete_row_args",
+     "params": [("table_rows", "int"), ("num_rows", "int"), ("start_row", ("opt", "int"))], "ret": "none",
+     "attrs": {"self.num_rows": ("table_rows", "int")},
+     "until": ("if start_row is not None:\n    del self._data[start_row:start_row + num_rows]\nelse:\n"
+               "    del self._data[self.num_rows - num_rows:]", []),
+     "assume": "only the argument checks (everything before the first `del`) are translated"},
+    {"group": "Edit", "module": "numbers_parser.document", "qualname": "Table.delete_column", "lean": "delete_column_args",
+     "params": [("table_cols", "int"), ("num_cols", "int"), ("start_col", ("opt", "int"))], "ret": "none",
+     "attrs": {"self.num_cols": ("table_cols", "int")},
+     "until": ("for row in range(self.num_rows):", []),
+     "assume": "only the argument checks (everything before the loop over the rows) are translated"},
+    {"group": "Cache", "module": "numbers_parser.numbers_cache", "qualname": "cache.cache_decorator.inner_multi_args",
+     "lean": "cache_inner_multi_args", "typevars": ["β"],
+     "params": [("f", ("raw", "List Int → β")), ("num_args", "int"), ("store", ("dict", "str", ("var", "β"))),
+                ("args", ("list", "int"))],
+     "ret": ("var", "β"), "state": ["store"],
+     "skip": ["method = func.__name__"],
+     "attrs": {"self._cache[method]": ("store", ("dict", "str", ("var", "β")))},
+     "externs": {"func": ("f", [], ("var", "β"), False, [1])},
+     "assume": "self._cache[func.__name__] is the state variable store (a dict in insertion order); the decorated method is the "
+               "parameter f of its positional arguments (ints), called without keyword arguments; num_args is the decorator's "
+               "closure variable"},
     {"group": "NumFmt", "module": "numbers_parser.cell", "qualname": "_format_fraction_parts_to", "lean": "format_fraction_parts_to",
      "params": [("whole", "int"), ("numerator", "int"), ("denominator", "int")], "ret": "str"},
     {"group": "NumFmt", "module": "numbers_parser.cell", "qualname": "_invert_bit_str", "lean": "invert_bit_str",
@@ -857,6 +1198,74 @@ TARGETS = [
     {"group": "NumFmt", "module": "numbers_parser.cell", "qualname": "_twos_complement", "lean": "twos_complement",
      "params": [("value", "int"), ("base", "int")], "ret": "str",
      "assume": "bin/oct/hex(x)[2:] are the base-2/8/16 digits of x >= 0 (lower case), str.upper on them is ASCII upper-casing"},
+    # ---- C12: packing / unpacking of merge rectangles in the merge-region map ------------------------------------------
+    {"group": "Merge", "module": "numbers_parser.model", "qualname": "_NumbersModel.recalculate_merged_cells",
+     "lean": "merge_pack", "params": [("row_col", ("tuple", ["int", "int"])), ("size", ("tuple", ["int", "int"]))],
+     "ret": ("tuple", ["int", "int"]),
+     "body_of": "for row_col in merge_cells.merge_cells():",
+     "skip": ["size = merge_cells.size(row_col)"],
+     "externs": {"TSTArchives.CellID": ("PyT.uint32Field", ["int"], "int", True),
+                 "TSTArchives.TableSize": ("PyT.uint32Field", ["int"], "int", True)},
+     "until": ("cell_range = TSTArchives.CellRange(origin=cell_id, size=table_size)", ["cell_id", "table_size"]),
+     "assume": "the body of the loop over the anchors: merge_cells.size(row_col) is a parameter; CellID(packedData=x) / "
+               "TableSize(packedData=x) store x in a protobuf uint32 field (ValueError outside 0..2^32-1) and stand for x"},
+    {"group": "Merge", "module": "numbers_parser.model", "qualname": "_NumbersModel.calculate_merge_cell_ranges",
+     "lean": "merge_unpack", "params": [("origin", "int"), ("size_packed", "int")],
+     "ret": ("tuple", ["int", "int", "int", "int", "int", "int"]),
+     "body_of": "for cell_range in cell_ranges.cell_range:",
+     "attrs": {"cell_range.origin.packedData": ("origin", "int"), "cell_range.size.packedData": ("size_packed", "int")},
+     "until": ("for row in range(row_start, row_end + 1):", ["row_start", "col_start", "row_end", "col_end", "num_rows", "num_columns"]),
+     "assume": "the body of the loop over the stored ranges up to the loops that fill the map: the two packedData fields are "
+               "parameters (uint32 values)"},
+    # ---- C01: the integer part of the decimal128 reader ---------------------------------------------------------------
+    {"group": "Dec128", "module": "numbers_parser.cell", "qualname": "_unpack_decimal128", "lean": "unpack_decimal128",
+     "params": [("buffer", "bytes")], "ret": ("tuple", ["int", "int", "int"]), "module_consts": True,
+     "until": ("return float(f'{mantissa}E{exp}')", ["sign", "mantissa", "exp"]),
+     "assume": "everything before the final float(f'{mantissa}E{exp}') is translated (the correctly rounded decimal -> binary64 "
+               "conversion stays a parameter)"},
+    {"group": "Dec128", "module": "numbers_parser.cell", "qualname": "_pack_decimal128", "lean": "pack_decimal128",
+     "params": [("sign", "int"), ("mantissa", "int"), ("exponent", "int")], "ret": "bytes", "module_consts": True,
+     "skip": ["sign, digits, exponent = _DECIMAL128_CONTEXT.create_decimal(str(value)).as_tuple()",
+              "mantissa = int(''.join((str(d) for d in digits)))"],
+     "fuel": ["mantissa.toNat + 1"],
+     "assume": "translated from the decimal triple on: decimal.Context(prec=34).create_decimal(str(value)).as_tuple() and the "
+               "joining of its digits into an int are supplied by the harness as the parameters sign, mantissa, exponent"},
+    # ---- C14: date directives with arithmetic of their own, the quote scanners, duration units --------------------------
+    {"group": "DateFmt", "module": "numbers_parser.constants", "qualname": "_day_of_year", "lean": "day_of_year",
+     "params": [("yday", "int")], "ret": "int",
+     "attrs": {"value.timetuple().tm_yday": ("yday", "int")},
+     "assume": "value.timetuple().tm_yday is a parameter (the calendar stays CPython's; compared with the model's civil "
+               "arithmetic on every run)"},
+    {"group": "DateFmt", "module": "numbers_parser.constants", "qualname": "_week_of_month", "lean": "week_of_month",
+     "params": [("day", "int"), ("first_weekday", "int")], "ret": "int",
+     "attrs": {"value.day": ("day", "int")},
+     "externs": {"value.replace(day=1).weekday": ("first_weekday", [], "int", False)},
+     "assume": "value.replace(day=1).weekday() is a parameter; int(ceil(x / 7.0)) is the exact ceiling (|x| < 2^50)"},
+    {"group": "DateFmt", "module": "numbers_parser.constants", "qualname": "_days_occurred_in_month",
+     "lean": "days_occurred_in_month", "params": [("day", "int")], "ret": "str",
+     "attrs": {"(value - value.replace(day=1)).days": ("(day - (1 : Int))", "int")},
+     "assume": "(value - value.replace(day=1)).days is value.day - 1 (timedelta between a date-time and the first of its month "
+               "at the same time of day); int(a / 7) is exact"},
+    {"group": "DateFmt", "module": "numbers_parser.cell", "qualname": "_expand_quotes", "lean": "expand_quotes",
+     "params": [("value", "str")], "ret": "str", "fuel": ["chars.length + 1"]},
+    {"group": "DateFmt", "module": "numbers_parser.cell", "qualname": "_decode_date_format", "lean": "decode_date_format",
+     "params": [("isAlpha", ("raw", "Char → Bool")), ("renderFld", ("raw", "Text → Text")), ("date_format", "str")],
+     "ret": "str", "fuel": ["chars.length + 1"],
+     "externs": {"_decode_date_format_field": ("renderFld", ["str"], "str", False, [0])},
+     "methods": {("str", "isalpha"): ("PyT.strIsAlpha isAlpha", "bool")},
+     "assume": "_decode_date_format_field(field, value) for the fixed value is the parameter renderFld (its table is "
+               "Gen.datetimeFieldCodes, compared on every run); str.isalpha of one character is the parameter isAlpha "
+               "(Gen.alphaRanges, generated from the running interpreter)"},
+    {"group": "Duration", "module": "numbers_parser.cell", "qualname": "_unit_format", "lean": "unit_format",
+     "params": [("unit", "str"), ("value", "int"), ("style", "int"), ("abbrev", ("opt", "str"), "none")], "ret": "str",
+     "module_consts": True},
+    {"group": "Duration", "module": "numbers_parser.cell", "qualname": "_auto_units", "lean": "auto_units",
+     "params": [("cell_value", "millis"), ("fmt_largest", "int"), ("fmt_smallest", "int")],
+     "ret": ("tuple", ["int", "int"]), "module_consts": True,
+     "attrs": {"number_format.duration_unit_largest": ("fmt_largest", "int"),
+               "number_format.duration_unit_smallest": ("fmt_smallest", "int")},
+     "assume": "cell_value is the double nearest to a whole number of milliseconds / 1000 (PyT.Millis: comparisons with ints, "
+               "math.floor(x) != x and x % int are exact on such doubles)"},
 ]
 
 
@@ -877,7 +1286,7 @@ def find_def(module: str, qualname: str) -> ast.FunctionDef:
     return node
 
 
-GROUP_IMPORTS = {"A1": ["NumbersModel.Model.A1"], "Items": [], "NumFmt": [], "Addr": []}
+GROUP_IMPORTS = {"A1": ["NumbersModel.Model.A1"], "Items": [], "NumFmt": [], "Addr": [], "DateFmt": [], "Duration": [], "Dec128": [], "Merge": [], "Edit": [], "Cache": [], "Tok": ["NumbersModel.Model.Tokenizer"]}
 
 
 def generate(group: str) -> tuple[str, dict]:
@@ -902,7 +1311,9 @@ def generate(group: str) -> tuple[str, dict]:
             chunks += parts[:-1] + [head + "\n" + parts[-1], ""]  # the doc comment sits on the main definition
             status[spec["lean"]] = {"ok": True, "python": f"{spec['module']}.{spec['qualname']}",
                                     "source_lines": len(src.split("\n")) - (len(doc.split("\n")) if doc else 0)}
-        except Unsupported as e:
+        except Exception as e:  # noqa: BLE001  (Unsupported, or a construct the translator itself trips over: same verdict)
+            if not isinstance(e, Unsupported):
+                e = Unsupported(f"translator error {type(e).__name__}: {e}")
             chunks.append(f"-- NOT TRANSLATED: {spec['module']}.{spec['qualname']}: {e}")
             chunks.append("")
             status[spec["lean"]] = {"ok": False, "python": f"{spec['module']}.{spec['qualname']}", "why": str(e)}
